@@ -370,3 +370,16 @@ package generator
 //@ props C01
 //@ modifies nothing
 //@ ensures !vs_conflictPkg(result) && result != "principal"
+
+//@ func prefixForName
+//@ props C01
+//@ safety
+//@ modifies nothing
+//@ requires len(arg) > 0
+//@ ensures result == "" || result == "Plus" || result == "Minus" || result == "HashTag" || result == "Asterisk" || result == "ForwardSlash" || result == "EqualSign" || result == "Nr"
+
+//@ func pascalize
+//@ props C01
+//@ safety
+//@ modifies nothing
+//@ ensures len(arg) == 0 ==> result == "Empty"
